@@ -27,8 +27,26 @@ pub enum Step {
     JumpTo(u64),
 }
 
-#[derive(Clone, Debug)]
+/// How the handle under test is built (`DnssecDnsHandle` builder methods, in this order).
+#[derive(Clone, Debug, Default, PartialEq, Eq)]
+pub struct HandleCfg {
+    /// `.positive_validation_ttl(min..=max)` in seconds
+    pub positive: Option<(u64, u64)>,
+    /// `.negative_validation_ttl(min..=max)` in seconds
+    pub negative: Option<(u64, u64)>,
+    /// `.validation_cache_size(n)`, applied BEFORE the two ranges
+    pub cache_size: Option<usize>,
+}
+
+impl HandleCfg {
+    pub fn tag(&self) -> String {
+        let r = |x: &Option<(u64, u64)>| x.map(|(a, b)| format!("{a}..={b}")).unwrap_or_else(|| "default".into());
+        format!("positive={} negative={} cache_size={}", r(&self.positive), r(&self.negative), self.cache_size.map(|n| n.to_string()).unwrap_or_else(|| "default".into()))
+    }
+}
+
 pub struct Scenario {
+    pub cfg: HandleCfg,
     pub anchors: Vec<(u8, Vec<u8>)>,
     pub query: (String, u16),
     pub t0: u64,
@@ -44,6 +62,7 @@ impl Scenario {
     pub fn to_json(&self) -> Value {
         json!({
             "desc": self.desc,
+            "handle": {"positive": self.cfg.positive.map(|(a, b)| vec![a, b]), "negative": self.cfg.negative.map(|(a, b)| vec![a, b]), "cache_size": self.cfg.cache_size},
             "anchors": self.anchors.iter().map(|(a, k)| json!({"alg": a, "key": hex::enc(k)})).collect::<Vec<_>>(),
             "query": {"name": self.query.0, "type": self.query.1},
             "t0": self.t0,
@@ -80,7 +99,10 @@ impl Scenario {
                 }
             })
             .collect::<Option<Vec<_>>>()?;
+        let range = |x: &Value| -> Option<(u64, u64)> { Some((x.get(0)?.as_u64()?, x.get(1)?.as_u64()?)) };
+        let cfg = HandleCfg { positive: range(&v["handle"]["positive"]), negative: range(&v["handle"]["negative"]), cache_size: v["handle"]["cache_size"].as_u64().map(|n| n as usize) };
         Some(Scenario {
+            cfg,
             anchors,
             query: (v["query"]["name"].as_str()?.to_string(), v["query"]["type"].as_u64()? as u16),
             t0: v["t0"].as_u64()?,
@@ -159,7 +181,17 @@ pub fn execute(sc: &Scenario, rt: &tokio::runtime::Runtime) -> Vec<(u32, Obs)> {
     vsim::reset_clocks(sc.t0);
     vsim::install_hook_clock();
     let up = TableUpstream::new();
-    let h = DnssecDnsHandle::with_trust_anchor(up.clone(), anchors_of(&sc.anchors));
+    let mut h = DnssecDnsHandle::with_trust_anchor(up.clone(), anchors_of(&sc.anchors));
+    let secs = std::time::Duration::from_secs;
+    if let Some(n) = sc.cfg.cache_size {
+        h = h.validation_cache_size(n);
+    }
+    if let Some((a, b)) = sc.cfg.positive {
+        h = h.positive_validation_ttl(secs(a)..=secs(b));
+    }
+    if let Some((a, b)) = sc.cfg.negative {
+        h = h.negative_validation_ttl(secs(a)..=secs(b));
+    }
     let h2 = h.clone();
     let q = Query::new(name_of_key(&sc.query.0), RecordType::from(sc.query.1));
     let mut out = vec![];
